@@ -19,7 +19,7 @@ CHECKS = {
                 "completeness on antichains; exactness of the abs/product/or/xor gadgets and of the exclusion cut. The model is tied to the "
                 "code by comparing the model the real CBC wrapper holds with Lean's Shape.toIlp, by validating every real solutions() trace "
                 "with the executable validRun predicate on an exhaustively enumerated point set, and by regenerating the precision literals.",
-        "text_more": "stage_reports_optimum: over a model whose objective is nowhere negative a normally ended run reports at least its optimum; the three stage models meet the hypothesis (cn_objective_nonneg, major_objective_nonneg, minor_objective_nonneg in the stages' own property files). Models with general integer variables are covered: a yielded assignment names binaries only (points_act_sublist). ",
+        "text_more": "A fifth of the random models are built in two stages on one model object with a solutions(limit=1) look in between. stage_reports_optimum: over a model whose objective is nowhere negative a normally ended run reports at least its optimum; the three stage models meet the hypothesis (cn_objective_nonneg, major_objective_nonneg, minor_objective_nonneg in the stages' own property files). Models with general integer variables are covered: a yielded assignment names binaries only (points_act_sublist). ",
         "design_ref": "DESIGN.md section 3.1, 3.3, 4 (C05)",
         "note": "Gurobi wrapper not modelled (not installed). The premise 'each solve returns a global optimum' is tested, not proved.",
         "technique": "Lean 4 proof (induction over the Run relation; linear arithmetic) + model-vs-CBC structural and trace correspondence",
@@ -35,7 +35,7 @@ CHECKS = {
                 "Tie: on every run the model the real code hands to CBC (captured through the MPSolver API at the first solve) is compared with "
                 "MajorInst.build of the same instance, _filter_alleles with filterAlleles, and an independent exhaustive oracle over all allele "
                 "multisets checks score, optimality, gap-completeness and uniqueness of the real return (C05's loop theorems carry the enumeration).",
-        "text_more": "Spec-level bridge (Props/C02Spec): specMajor I k is the documented score of calling k(a) copies of every candidate allele a (absolute observed-minus-called copies per core variant and reference row, a variant nobody carries being called once as novel, plus the novelty penalties) and never looks at the ILP; proved for EVERY instance: every admissible multiset is the decision of a feasible point whose objective is its documented score (major_decision_achievable), every feasible point that selects it scores at least that (major_spec_lower_bound), every feasible point selects an admissible multiset (major_decision_of_sat), hence the objective of any optimum of the model is the least documented score among the admissible multisets (major_optimal_score_is_least_documented) - 'the reported score is the documented one and no admissible combination scores lower' modulo the solver returning an optimum. Tie family major_spec_score: the score of every reported multiset equals specMajor decided by Lean. ",
+        "text_more": "Directed: catalogued function-altering variants that belong to no allele (random: section; GSTP1 and generated) observed at one copy's depth. Spec-level bridge (Props/C02Spec): specMajor I k is the documented score of calling k(a) copies of every candidate allele a (absolute observed-minus-called copies per core variant and reference row, a variant nobody carries being called once as novel, plus the novelty penalties) and never looks at the ILP; proved for EVERY instance: every admissible multiset is the decision of a feasible point whose objective is its documented score (major_decision_achievable), every feasible point that selects it scores at least that (major_spec_lower_bound), every feasible point selects an admissible multiset (major_decision_of_sat), hence the objective of any optimum of the model is the least documented score among the admissible multisets (major_optimal_score_is_least_documented) - 'the reported score is the documented one and no admissible combination scores lower' modulo the solver returning an optimum. Tie family major_spec_score: the score of every reported multiset equals specMajor decided by Lean. ",
         "design_ref": "DESIGN.md section 10.2-10.3 (as built), section 4 (C02), 3.2 (plan)",
         "note": "Optimality/completeness = C05's Run theorems (each solve returns a true optimum: CBC trusted, cross-checked by the exhaustive "
                 "oracle on generated instances) + the antichain theorem, under the hypothesis that every candidate allele's configuration is part "
@@ -91,7 +91,7 @@ CHECKS = {
                 "planted multiset among the best solutions when the planted structure is CN-optimal, every best solution's variants (with "
                 "multiplicity) equal to the simulated haplotypes. Three genuine defects found and repaired by fix: commits; one input class "
                 "(two indels <= 20 bp apart) is a known finding.",
-        "text_more": "Spec level (Props/C01Spec): a planted multiset is an admissible decision of documented score 0 (planted_admissible, planted_spec_zero), no multiset has a negative documented score (specMajor_nonneg), hence with zero-error evidence every optimum of the major ILP selects an admissible multiset of documented score 0 and scores 0 (optimum_spec_zero_of_planted, via C02 major_optimal_score_is_least_documented). Refinement stage, for EVERY instance (Props/C01Minor): under the decidable clauses PlantedMinor (planted candidates fill the major solution, every considered variant / reference row is observed on exactly the planted carriers, a planted candidate has gene copies at and at most one variant per considered site, rules 5/6 leave room, every read-phase pattern that some slot can explain is attributed to a planted copy agreeing with it at every site) the closed-form planted point satisfies all fourteen constraint families of MinorInst.build - read-phase block included, phase cells proved to be keyed without repetition - and scores 0 (planted_minor_zero), hence every optimum carries every considered variant on exactly the planted number of copies (planted_minor_optima_exact); the clauses are decided by Lean on the real inputs of solve_minor_model (plantedMinorB_iff; tie family planted_minor_premise: where they hold the best refinement reported must score 0). A fifth of the samples are genotyped with indelpost=false; the structure clause is decided independently of the copy-number stage's own answer (region depths within a quarter copy of the planted structure). Five genuine defects found through this check were repaired by fix: commits. ",
+        "text_more": "Directed database: all subsets of five core SNPs as alleles - a two-copy sample decomposes in sixteen equally good ways and every one of them must be among the best solutions. Spec level (Props/C01Spec): a planted multiset is an admissible decision of documented score 0 (planted_admissible, planted_spec_zero), no multiset has a negative documented score (specMajor_nonneg), hence with zero-error evidence every optimum of the major ILP selects an admissible multiset of documented score 0 and scores 0 (optimum_spec_zero_of_planted, via C02 major_optimal_score_is_least_documented). Refinement stage, for EVERY instance (Props/C01Minor): under the decidable clauses PlantedMinor (planted candidates fill the major solution, every considered variant / reference row is observed on exactly the planted carriers, a planted candidate has gene copies at and at most one variant per considered site, rules 5/6 leave room, every read-phase pattern that some slot can explain is attributed to a planted copy agreeing with it at every site) the closed-form planted point satisfies all fourteen constraint families of MinorInst.build - read-phase block included, phase cells proved to be keyed without repetition - and scores 0 (planted_minor_zero), hence every optimum carries every considered variant on exactly the planted number of copies (planted_minor_optima_exact); the clauses are decided by Lean on the real inputs of solve_minor_model (plantedMinorB_iff; tie family planted_minor_premise: where they hold the best refinement reported must score 0). A fifth of the samples are genotyped with indelpost=false; the structure clause is decided independently of the copy-number stage's own answer (region depths within a quarter copy of the planted structure). Five genuine defects found through this check were repaired by fix: commits. ",
         "design_ref": "DESIGN.md section 10.2-10.3 (as built), section 4 (C01), 5 (plan)",
         "note": "PARTIAL: the premises Planted / PlantedMinor (the pileup of error-free reads is the zero-error evidence of the planted "
                 "copies) are decided per sample by evaluating the Lean definitions on the real stage inputs (translation validation), not "
@@ -149,7 +149,7 @@ CHECKS = {
                 "repair both sides are non-empty when two or more items were placed. Tie: real estimate_diplotype and "
                 "get_major_diplotype vs the model on multisets of 0-6 copies in all production orders (toy, CYP2D6, CYP2A6, CYP2C19, GSTM1, "
                 "generated genes), get_major_name vs majorName, natsort's key vs natKey on every name; property oracle on every real output.",
-        "text_more": "Tandems (Props/C11Tandem): every pair the tandem step puts on a haplotype is shown as two neighbouring copies of one reported haplotype - later steps only append single copies or move the last item, the natural sort reorders items, flattening writes a pair consecutively (tandem_pair_adjacent, for every input); the step forms pairs only (tandemLoop_pairs). Two called copies (Props/C11Order): whatever the allele numbers, deletion allele and tandem list, copy 0 and copy 1 end on different haplotypes (diplotype_two_arrangement) and the names shown do not depend on the production order (diplotype_two_order_independent; the natural-sort order is asymmetric for all keys - keyLt_asymm; hypothesis 'different names have different keys' decided per input by the driver). Oracle clauses: natural order of haplotypes and of the alleles inside them; the deletion allele itself may be among the called copies. ",
+        "text_more": "Directed: the deletion allele (or an allele with its number) called alone or next to one other copy. Tandems (Props/C11Tandem): every pair the tandem step puts on a haplotype is shown as two neighbouring copies of one reported haplotype - later steps only append single copies or move the last item, the natural sort reorders items, flattening writes a pair consecutively (tandem_pair_adjacent, for every input); the step forms pairs only (tandemLoop_pairs). Two called copies (Props/C11Order): whatever the allele numbers, deletion allele and tandem list, copy 0 and copy 1 end on different haplotypes (diplotype_two_arrangement) and the names shown do not depend on the production order (diplotype_two_order_independent; the natural-sort order is asymmetric for all keys - keyLt_asymm; hypothesis 'different names have different keys' decided per input by the driver). Oracle clauses: natural order of haplotypes and of the alleles inside them; the deletion allele itself may be among the called copies. ",
         "design_ref": "DESIGN.md section 10.2-10.3 (as built), section 4 (C11) (plan)",
         "note": "The partition clause is proved end to end under the hypothesis that a catalogued tandem pairs two different allele numbers (for "
                 "a pair (x, x) the code deletes two list entries per emitted pair or raises IndexError; no shipped database has one). That a pair once formed stays adjacent is a theorem (C11Tandem); which copies the tandem step pairs (consumption of shared members) is decided by the correspondence run and the oracle; order-independence for two copies is a theorem (C11Order), for one copy there is one order. Order clauses rest on "
@@ -165,7 +165,7 @@ CHECKS = {
                 "structures, perturbed stage scores, injected empty stages) recorded by wrapping the stage functions from outside and replayed "
                 "through the model, stage by stage; independent Python oracle recomputes the combined scores, the within-gap set and the chain "
                 "consistency (structure <-> alleles <-> minors <-> diplotype) of every reported solution.",
-        "text_more": "Chain consistency (Props/C04Decision, readout_refines_major): for every feasible point of the refinement model and every major allele of the major solution, exactly as many reported minor-allele copies carry its name as the major solution has copies of it (with major_csat of C02 for structure vs alleles and diplotype_partition of C11 for the diplotype, the chain clauses are theorems). The oracle explores structures the copy-number stage returned but the major stage never saw: none of their major solutions may lie within the gap. ",
+        "text_more": "One structure whose major stage returns nothing (any position in the order); every major solution handed to the refinement carries its own score plus the score difference of its own structure, and exactly the ones within the gap are handed on. Chain consistency (Props/C04Decision, readout_refines_major): for every feasible point of the refinement model and every major allele of the major solution, exactly as many reported minor-allele copies carry its name as the major solution has copies of it (with major_csat of C02 for structure vs alleles and diplotype_partition of C11 for the diplotype, the chain clauses are theorems). The oracle explores structures the copy-number stage returned but the major stage never saw: none of their major solutions may lie within the gap. ",
         "design_ref": "DESIGN.md section 10.2-10.3 (as built), section 4 (C10) (plan)",
         "note": "Chain consistency is checked by the oracle on every reported solution and follows from C02 major_csat / C04 at model level; "
                 "float truncation int(1000*score) is compared exactly unless the float and exact truncations differ (counted as hazard).",
@@ -192,7 +192,7 @@ CHECKS = {
                 "of spanning reads; depth is invariant under read permutation and under splitting a run or exchanging M/=/X; every observation "
                 "carries the binned mapping quality of its read. Ties: _parse_read on generated tuples and the whole Sample(...) on BAMs written by "
                 "pysam (flags, clips, shared names, both strands) vs the model; oracle from htslib's aligned pairs (depth and counts per position).",
-        "text_more": "Props/C06Table.lean: the table _make_coverage builds lists each allele of a site once and Coverage.total(pos) equals the number of reads spanning pos (makeTable_totalPos, total_is_spanning_reads). ",
+        "text_more": "Reads carry no-call and ambiguity bases in their aligned part (an observation like any other). Props/C06Table.lean: the table _make_coverage builds lists each allele of a site once and Coverage.total(pos) equals the number of reads spanning pos (makeTable_totalPos, total_is_spanning_reads). ",
         "design_ref": "DESIGN.md section 10.2-10.3 (as built), section 4 (C06) (plan)",
         "note": "PARTIAL at theorem level: the depth theorems hold for every locus at every position that is not part of a catalogued "
                 "multi-substitution site (mergeMnp_depth_away, depth_total_general: the merge step changes observations only at the positions of "
@@ -212,7 +212,7 @@ CHECKS = {
                 "neutral region is an error. Tie: real Sample/Profile.load/get_sam_profile_data on simulated read sets (indels, clips, flags, "
                 "custom neutral regions, both strands) vs the model in four metamorphic variants + profile YAML round trip; metamorphic oracle "
                 "on the real values.",
-        "text_more": "Linked to the pileup model: the sum _normalize_coverage takes over a region of Coverage.total(pos) equals the sum over the reads of the region bases each spans (region_sum_is_sum_of_depths, normalised_signal_is_read_overlap). ",
+        "text_more": "Reads with no-call bases (shared generator with C06). Linked to the pileup model: the sum _normalize_coverage takes over a region of Coverage.total(pos) equals the sum over the reads of the region bases each spans (region_sum_is_sum_of_depths, normalised_signal_is_read_overlap). ",
         "design_ref": "DESIGN.md section 10.2-10.3 (as built), section 4 (C07) (plan)",
         "note": "The consequence 'reported structure independent of depth' follows from invariance of the depth vector fed to the CN stage; "
                 "_filter_configs' absolute min_coverage threshold can differ between depths (documented hypothesis FilterStable, not a theorem). "
@@ -229,7 +229,7 @@ CHECKS = {
                 "with the real Gene, and the driver evaluates the haplotype equation and the reference-allele hypotheses on every variant "
                 "(shipped: quick 7 genes x 2 builds, thorough all 38 x 2; generated: random sequence, all kinds, both strands, alignment strings "
                 "with I/D); independent sequence-level Python oracle on the real Gene object.",
-        "text_more": "Inferred amino-acid effects of uncatalogued substitutions are compared with an independent translation of the coding exons and across builds; multi-base variants are placed at and beside the gaps of the RefSeq-to-genome alignment. ",
+        "text_more": "Generated databases include builds aligned with an insertion and a later deletion of the same length around catalogued variants; insertions written next to an alignment gap are counted and not decided. Inferred amino-acid effects of uncatalogued substitutions are compared with an independent translation of the coding exons and across builds; multi-base variants are placed at and beside the gaps of the RefSeq-to-genome alignment. ",
         "design_ref": "DESIGN.md section 10.2-10.3 (as built), section 4 (C08) (plan)",
         "note": "Multi-block mappings and dotted multi-substitutions are decided by evaluation per variant (finite, exhaustive for shipped "
                 "databases in the thorough tier) rather than by the list-level theorems. Insertion anchoring handed to indelpost/long-read "
@@ -267,7 +267,7 @@ CHECKS = {
                 "Ties on every solve_minor_model call of the real estimate_minor: captured CBC model == MinorInst.build; returned alleles == "
                 "readOut of the solver's binaries; returned score == reported objective; oracle with the property's clauses and exhaustive "
                 "optimality on small instances.",
-        "text_more": "Oracle: the clause 'the reported score equals the objective of the reported assignment' is recomputed from the report alone including the read-phase disagreement (every pattern attributed to the selected copy that contradicts it least); the exhaustive optimum includes the phase term and rule 6; directed class: two copies of one minor allele that differ crosswise (multi-allelic site, variants in trans) with the planted assignment as an admissible upper bound. Spec level (Props/C04Spec, Model/MinorSpec): specMinor computes the documented objective from the reported assignment alone (selected copies, kept / gained variants, the copy each read-phase pattern is attributed to; no product helper, error variable or absolute-value helper is read) and for EVERY instance the objective of any optimum of the model equals specMinor of the assignment that optimum reports (minor_optimum_score_is_spec; product helpers of kept and gained variants exact, reference rows, novel-core indicators, phase indicators); tie family minor_spec_score: the objective reported for every first yield equals specMinor decided by Lean. The helpers are functions of the reported assignment (Props/C04Decision, minor_helpers_determined): two feasible points reporting the same copy / keep / add selectors agree on every product helper and every row error. At an optimum the score IS the documented objective of the reported assignment (Props/C04Tight): no constraint other than its own two mentions an error helper (noabs_cons, all fourteen families), so replacing every helper by the absolute row error keeps a point feasible and lowers the objective by the slack of the helpers (minor_tighten); hence at any optimum every helper equals |observed - carried| of its row (minor_optimum_abs_tight) and the objective is the sum of those absolute fit errors over the variant and reference rows plus the miss / add / novel-core penalties and the read-phase disagreement (minor_optimum_score_is_documented). Score (Props/C04Score): at every point the objective equals error helpers + minor_miss x dropped definition variants + minor_add x (1 + k/1e6) per set add selector + minor_add/2 x novel-core indicators + minor_phase x cnt x (agreeing selectors missed + disagreeing selectors hit) per phase cell (minor_score_closed_form), and at feasible points each summand is the indicator its name says (minor_dropped_term, minor_vnewor_exact, minor_phase_terms; the selectors of a phase cell are keep / add selectors of the cell's slot). Two genuine defects repaired by fix: commits (reference row at multi-allelic sites, candidate order). The clause 'every carried variant has supporting filtered reads' is decided on instances with a variant between the filter thresholds of the structure's copy count and of the copies its site really has. ",
+        "text_more": "Tie family considered_set: the variants every refinement considers are the documented pool over ALL major solutions (variants of every minor allele of every called major allele, every novel variant, the catalogued variants of no allele); the refinement is judged against that pool. Oracle: the clause 'the reported score equals the objective of the reported assignment' is recomputed from the report alone including the read-phase disagreement (every pattern attributed to the selected copy that contradicts it least); the exhaustive optimum includes the phase term and rule 6; directed class: two copies of one minor allele that differ crosswise (multi-allelic site, variants in trans) with the planted assignment as an admissible upper bound. Spec level (Props/C04Spec, Model/MinorSpec): specMinor computes the documented objective from the reported assignment alone (selected copies, kept / gained variants, the copy each read-phase pattern is attributed to; no product helper, error variable or absolute-value helper is read) and for EVERY instance the objective of any optimum of the model equals specMinor of the assignment that optimum reports (minor_optimum_score_is_spec; product helpers of kept and gained variants exact, reference rows, novel-core indicators, phase indicators); tie family minor_spec_score: the objective reported for every first yield equals specMinor decided by Lean. The helpers are functions of the reported assignment (Props/C04Decision, minor_helpers_determined): two feasible points reporting the same copy / keep / add selectors agree on every product helper and every row error. At an optimum the score IS the documented objective of the reported assignment (Props/C04Tight): no constraint other than its own two mentions an error helper (noabs_cons, all fourteen families), so replacing every helper by the absolute row error keeps a point feasible and lowers the objective by the slack of the helpers (minor_tighten); hence at any optimum every helper equals |observed - carried| of its row (minor_optimum_abs_tight) and the objective is the sum of those absolute fit errors over the variant and reference rows plus the miss / add / novel-core penalties and the read-phase disagreement (minor_optimum_score_is_documented). Score (Props/C04Score): at every point the objective equals error helpers + minor_miss x dropped definition variants + minor_add x (1 + k/1e6) per set add selector + minor_add/2 x novel-core indicators + minor_phase x cnt x (agreeing selectors missed + disagreeing selectors hit) per phase cell (minor_score_closed_form), and at feasible points each summand is the indicator its name says (minor_dropped_term, minor_vnewor_exact, minor_phase_terms; the selectors of a phase cell are keep / add selectors of the cell's slot). Two genuine defects repaired by fix: commits (reference row at multi-allelic sites, candidate order). The clause 'every carried variant has supporting filtered reads' is decided on instances with a variant between the filter thresholds of the structure's copy count and of the copies its site really has. ",
         "design_ref": "DESIGN.md section 10.2-10.3 (as built), section 4 (C04), 3.2 (plan)",
         "note": "Optimality = C05 Run theorems + exhaustive oracle on small instances (tie-breaker epsilon <= minor_add*#selectors/1e6 allowed); "
                 "'one variant per site' after the homozygous post-processing is checked by the oracle on every real output (no violation seen), "
@@ -302,7 +302,7 @@ CHECKS = {
                 "records) == the model. Oracle: support 10 x copies and reference 20 - 10 x copies per catalogued variant, default 20 elsewhere, "
                 "no failed run, heterozygous allele => reference/allele through genotype(). One genuine defect (crash on ignored shapes) was "
                 "repaired by a fix: commit; insertions, multi-nucleotide substitutions and deletion-insertions not becoming support are known findings.",
-        "text_more": "Multi-sample files with the carrier at any column are genotyped through genotype() with vcf_sample_idx. ",
+        "text_more": "Half-missing genotypes (./1, 1/., .|1, ./0) are incomplete calls. Multi-sample files with the carrier at any column are genotyped through genotype() with vcf_sample_idx. ",
         "design_ref": "DESIGN.md section 10.2-10.3 (as built), section 4 (C16), 5 (plan)",
         "note": "Seven known-finding signatures (insertion / MNP one-record / MNP adjacent / delins and their genotype-level consequences). "
                 "Pharmacoscan input not modelled.",
@@ -316,7 +316,7 @@ CHECKS = {
                 "lists / phase table of real dumps vs the model; and the property itself on the real code: `aldy genotype --debug` through the real "
                 "command line in a fresh interpreter, archive replayed with `aldy genotype <archive>`, output files compared byte for byte and "
                 "solution objects (names, structures, scores, alleles) compared through the API, for one- and two-gene archives.",
-        "text_more": "Props/C17Stages.lean: every Coverage query the stages use is invariant under the reordering a dump introduces, the filters preserve that equivalence, the candidate filter selects the same alleles and the major / minor stage models built from the replayed evidence are EQUAL to those built from the original (replay_major_stage_equal, replay_minor_stage_equal, replay_depths_equal); the equivalence is decided on the real original and replayed Sample objects on every run (with and without indel realignment, under BAM and named profiles). ",
+        "text_more": "Every fifth run uses a profile file whose options section sets a parameter the caller sets too: the caller's value governs run, archive and replay. Props/C17Stages.lean: every Coverage query the stages use is invariant under the reordering a dump introduces, the filters preserve that equivalence, the candidate filter selects the same alleles and the major / minor stage models built from the replayed evidence are EQUAL to those built from the original (replay_major_stage_equal, replay_minor_stage_equal, replay_depths_equal); the equivalence is decided on the real original and replayed Sample objects on every run (with and without indel realignment, under BAM and named profiles). ",
         "design_ref": "DESIGN.md section 10.2-10.3 (as built), section 4 (C17) (plan)",
         "note": "PARTIAL by nature: pickle/gzip/tar and process start are runtime behaviour covered only by the replay runs; invariance of the "
                 "stages under per-site permutation is proved for counts/filters (C15, C17) and carried to results by the replay tie.",
@@ -332,7 +332,7 @@ CHECKS = {
                 "shipped hg19/hg38 databases and generated opposite-strand databases with RefSeq-level evidence transported to both builds. "
                 "Oracle: the property itself - equal major/minor solutions, scores and added/lost variants in RefSeq terms at stage level, and "
                 "equal full-pipeline results for alignments expressed against each build (reads mirrored through the coordinate maps).",
-        "text_more": "Spec level (Props/C13Spec), no ILP involved: if the two builds' inputs of the major stage correspond (MajorCorr: same candidate alleles up to a relabelling of their core variants - in any order -, observed variants and sites relabelled in any order, 'carries' / 'sits at this site' / 'is an insertion' preserved, observed copy numbers and gene copies at a site equal) then EVERY multiset of alleles has the same admissibility and the same documented score in both builds (spec_major_build_independent), so by C02's major_optimal_score_is_least_documented both builds have the same optimal multisets with the same scores (major_optimum_build_independent); the correspondence is decided by Lean on the two real stage inputs (majorCorrB_sound; tie family major_spec_correspondence: where it holds the reported major solutions must be equal). Oracle additions: region of every RefSeq base equal in both builds (generated databases), VCF pairs with REF/ALT exchanged in one build, homozygous insertion alleles through the alignment pipeline. ",
+        "text_more": "Databases with one build aligned with a balanced pair of gaps around catalogued variants; simulated reads take reference bases from the RefSeq record and the coordinate map; read-phase evidence is off for independently tiled alignments (not the same fragments), on for mirrored ones. Spec level (Props/C13Spec), no ILP involved: if the two builds' inputs of the major stage correspond (MajorCorr: same candidate alleles up to a relabelling of their core variants - in any order -, observed variants and sites relabelled in any order, 'carries' / 'sits at this site' / 'is an insertion' preserved, observed copy numbers and gene copies at a site equal) then EVERY multiset of alleles has the same admissibility and the same documented score in both builds (spec_major_build_independent), so by C02's major_optimal_score_is_least_documented both builds have the same optimal multisets with the same scores (major_optimum_build_independent); the correspondence is decided by Lean on the two real stage inputs (majorCorrB_sound; tie family major_spec_correspondence: where it holds the reported major solutions must be equal). Oracle additions: region of every RefSeq base equal in both builds (generated databases), VCF pairs with REF/ALT exchanged in one build, homozygous insertion alleles through the alignment pipeline. ",
         "design_ref": "DESIGN.md section 10.2-10.3 (as built), section 4 (C13) (plan)",
         "note": "PARTIAL: the equivariance premise (models are renamings) is validated per instance (translation validation), not proved for the "
                 "builders in general; exact score equality of the minor stage holds up to the order-dependent tie-breaker. Evidence transport "
